@@ -82,7 +82,7 @@ class AliasClass:
                 return any(rooted_in_this_field(a, self.storage) for a in e.get('a', [])) or any(
                     w.get('k') == 'mem' and w.get('f') in self.storage for a in e.get('a', []) for w in walk_expr(a))
             if fn in ('memmove', 'memcpy') and e.get('a'):
-                d = e['a'][0]
+                d = q.expand(f, e['a'][0])       # through single-assignment pointer locals (T* const first = _a + i)
                 return any(w.get('k') == 'mem' and w.get('f') in self.storage and strip(w.get('b') or {}).get('k') == 'this' for w in walk_expr(d))
             # non-const member call on an owned sub-object (Var: (*_a) = ..., (*_a) << x, _o->...)
             if self.sub_objects and e.get('obj') is not None and 'const' not in (e.get('sig') or '').split(')')[-1]:
@@ -202,25 +202,64 @@ class AliasClass:
                 if l.get('k') == 'var' and l.get('id') == pid:
                     lhs_nodes.add(id(l))
 
-        def reads_param(e):
-            return e.get('k') == 'var' and e.get('id') == pid and id(e) not in lhs_nodes
+        # `&x` only takes the address of what the reference designates: not a use.  Pointer locals holding that address are
+        # tracked (tainted); dereferencing a tainted pointer is the use.  Re-assigning the pointer (to a storage-based
+        # address) clears it.
+        addr_nodes = set()
+        for e in fn_exprs(f):
+            if e.get('k') == 'un' and e.get('op') == '&':
+                t_ = strip_lv(e['e'])
+                if t_.get('k') == 'var' and t_.get('id') == pid:
+                    addr_nodes.add(id(t_))
 
-        def step(n, st):
-            # st in 'fresh', 'stale', 'safe'
+        def is_addr_of_param(x):
+            x = strip(x) if isinstance(x, dict) else {}
+            while x.get('k') == 'cast':
+                x = strip(x['e'])
+            return x.get('k') == 'un' and x.get('op') == '&' and strip_lv(x['e']).get('k') == 'var' and strip_lv(x['e']).get('id') == pid
+
+        def reads_param(e):
+            return e.get('k') == 'var' and e.get('id') == pid and id(e) not in lhs_nodes and id(e) not in addr_nodes
+
+        def step(n, state):
+            # state = (st, tainted pointer locals); st in 'fresh', 'stale', 'safe'
+            st, taint = state
             if n.kind not in ('ev', 'decl', 'init', 'br', 'sw', 'ret'):
-                return st
+                return state
             e = n.e
-            if n.kind == 'decl' or e is None:
-                return st
+            if n.kind == 'decl':
+                info = n.info or {}
+                if info.get('init') is not None and is_addr_of_param(info['init']):
+                    return (st, taint | frozenset([info['id']]))
+                return state
+            if e is None:
+                return state
             k = e.get('k')
             if n.kind == 'ev':
                 if reads_param(e):
                     if st == 'stale' and e.get('l') not in seen:
                         seen.add(e.get('l'))
                         problems.append((e.get('l', 0), 'parameter `%s` is used after the receiver\'s storage may have been released or moved' % p['n']))
-                    return st
+                    return state
+                if taint and ((k == 'un' and e.get('op') == '*') or k == 'idx'):
+                    base = strip(e['e'] if k == 'un' else e['b'])
+                    while base.get('k') == 'cast':
+                        base = strip(base['e'])
+                    if base.get('k') == 'var' and base.get('id') in taint and st == 'stale' and e.get('l') not in seen:
+                        seen.add(e.get('l'))
+                        problems.append((e.get('l', 0), 'parameter `%s` is used (through the pointer `%s`) after the receiver\'s storage may have been released or moved' % (p['n'], base.get('n'))))
+                    return state
                 if k == 'bin' and e.get('op') == '=' and strip_lv(e['x']).get('k') == 'var' and strip_lv(e['x']).get('id') == pid:
-                    return 'fresh' if st == 'stale' else st     # re-based
+                    return ('fresh' if st == 'stale' else st, taint)     # re-based
+                if k == 'bin' and e.get('op') == '=' and strip_lv(e['x']).get('k') == 'var' and T(f, strip_lv(e['x']).get('t')).get('ptr'):
+                    vid = strip_lv(e['x'])['id']
+                    if is_addr_of_param(e['y']):
+                        return (st, taint | frozenset([vid]))
+                    if vid in taint:
+                        return (st, taint - frozenset([vid]))
+                    return state
+                if k == 'un' and e.get('op') in ('pre++', 'post++', 'pre--', 'post--'):
+                    return state
                 if k == 'call':
                     # forwarding an argument derived from the parameter to a callee that is unsafe for that position
                     key = e.get('pq')
@@ -231,10 +270,15 @@ class AliasClass:
                                 seen.add((e.get('l'), key))
                                 problems.append((e.get('l', 0), 'argument derived from `%s` is forwarded to %s, which uses it after invalidating the same storage' % (p['n'], key)))
                 if self.invalidates(f, e):
-                    return 'stale' if st == 'fresh' else st
-            return st
+                    return ('stale' if st == 'fresh' else st, taint)
+            return state
 
-        def edge(n, lab, st):
+        def edge(n, lab, state):
+            st, taint = state
+            r = edge1(n, lab, st)
+            return None if r is None else (r, taint)
+
+        def edge1(n, lab, st):
             if n.kind != 'br' or lab not in (True, False):
                 return st
             c = strip(q.expand(f, n.e, bools_only=True))
@@ -265,7 +309,7 @@ class AliasClass:
                         return 'safe'
             return st
 
-        reached, parent = cfgm.dataflow(cfg, 'fresh', step, edge)
+        reached, parent = cfgm.dataflow(cfg, ('fresh', frozenset()), step, edge)
         self.ctx.evaluations += sum(len(v) for v in reached.values())
         return problems
 
